@@ -1231,7 +1231,8 @@ fn crash_oracle(cx: &mut Ctx, r: &mut Rng, run: &Run, budget: usize, depth: usiz
         let pending: Vec<Op> = run.ops[s..k].iter().filter(|o| !matches!(o, Op::Close)).cloned().collect();
         let lo = run.marks.lo(k);
         let hi = run.marks.hi(k).max(lo);
-        let choices = choices_for(r, &durable, &pending, k, per_point, pi * per_point);
+        // after a recovery the classic images (god byte only, ...) come first at every crash point
+        let choices = choices_for(r, &durable, &pending, k, per_point, if depth > 0 { 0 } else { pi * per_point });
         for c in choices {
             if used >= budget {
                 break;
